@@ -1,18 +1,18 @@
 """Which units (and extra engines) serve which property, plus MANIFEST metadata."""
-UNITS = ['u_list', 'u_jobs', 'u_tok', 'u_plan', 'u_exp1', 'u_calc', 'u_exp2', 'u_wait', 'u_fd', 'u_env', 'u_args', 'u_proc', 'u_exp3', 'u_bfd', 'u_blt']
+UNITS = ['u_list', 'u_jobs', 'u_tok', 'u_plan', 'u_exp1', 'u_calc', 'u_exp2', 'u_wait', 'u_fd', 'u_env', 'u_args', 'u_proc', 'u_exp3', 'u_bfd', 'u_blt', 'u_jcmd', 'u_read']
 
 PROPERTY_UNITS = {
     'C03': ['u_list', 'u_tok'],
     'C06': ['u_jobs', 'u_wait'],
-    'C05': ['u_list', 'u_jobs', 'u_tok', 'u_plan', 'u_exp1', 'u_calc', 'u_exp2', 'u_wait', 'u_fd', 'u_env', 'u_args', 'u_proc', 'u_exp3', 'u_bfd', 'u_blt'],
+    'C05': ['u_list', 'u_jobs', 'u_tok', 'u_plan', 'u_exp1', 'u_calc', 'u_exp2', 'u_wait', 'u_fd', 'u_env', 'u_args', 'u_proc', 'u_exp3', 'u_bfd', 'u_blt', 'u_jcmd', 'u_read'],
     'C01': ['u_plan', 'u_exp1', 'u_exp2', 'u_exp3', 'u_tok', 'u_fd'],
     'C13': ['u_plan', 'u_exp1', 'u_exp2', 'u_exp3'],
     'C12': ['u_exp1', 'u_exp2'],
     'C10': ['u_exp2'],
     'C11': ['u_exp3', 'u_exp2', 'u_blt'],
-    'C07': ['u_fd', 'u_proc', 'u_plan', 'u_jobs', 'u_wait'],
+    'C07': ['u_fd', 'u_proc', 'u_plan', 'u_jobs', 'u_wait', 'u_jcmd'],
     'C15': ['u_args'],
-    'C09': ['u_env', 'u_exp2', 'u_proc'],
+    'C09': ['u_env', 'u_exp2', 'u_proc', 'u_read'],
     'C02': ['u_fd', 'u_wait', 'u_plan', 'u_blt'],
     'C04': ['u_fd', 'u_plan', 'u_bfd'],
     'C08': ['u_fd', 'u_bfd'],
